@@ -9,8 +9,8 @@
    cannot hold tuples), full = 1 or 0.                                                                    *)
 EXTENDS EcCurves, Json, Integers
 CONSTANTS CurveNames, PQ, LStride, Heavy
-VARIABLES c, full, ps, qs, P, Q, l, lq, gt, row
-vars == << c, full, ps, qs, P, Q, l, lq, gt, row >>
+VARIABLES vCurve, vFull, vPs, vQs, vP, vQ, vL, vLQ, vGT, vRow
+vars == << vCurve, vFull, vPs, vQs, vP, vQ, vL, vLQ, vGT, vRow >>
 
 KMax(cv) == LET o == Order(cv) + 1  lim == Pow2(cv.m) - 1 IN IF o < lim THEN o ELSE lim
 Named(cv, s) == IF s = -1 THEN G(cv) ELSE IF s = -2 THEN Neg(cv, G(cv)) ELSE IF s = -3 THEN Dbl(cv, G(cv))
@@ -18,31 +18,31 @@ Named(cv, s) == IF s = -1 THEN G(cv) ELSE IF s = -2 THEN Neg(cv, G(cv)) ELSE IF 
 RowOf(cv, tab, pt) == [k \in 1..Len(tab) |-> Add(cv, tab[k], pt)]
 Keep(cv, fl, lv) == fl = 1 \/ lv % LStride = 0 \/ lv \in {0, 1, cv.n - 1, cv.n, KMax(cv)}
 
-Init == /\ c \in { CurveByName(nm) : nm \in CurveNames }
-        /\ \E code \in PQ : full = code \div 1000000 /\ ps = ((code \div 1000) % 1000) - 10 /\ qs = (code % 1000) - 10
-        /\ P = Named(c, ps) /\ Q = Named(c, qs)
-        /\ l = 0 /\ lq = Inf
-        /\ gt = MulTable(c, P, KMax(c))
-        /\ row = RowOf(c, gt, Inf)
-Step == /\ l < KMax(c)
-        /\ l' = l + 1
-        /\ lq' = Add(c, lq, Q)
-        /\ row' = IF Keep(c, full, l + 1) THEN RowOf(c, gt, lq') ELSE << >>
-        /\ UNCHANGED << c, full, ps, qs, P, Q, gt >>
+Init == /\ vCurve \in { CurveByName(nm) : nm \in CurveNames }
+        /\ \E code \in PQ : vFull = code \div 1000000 /\ vPs = ((code \div 1000) % 1000) - 10 /\ vQs = (code % 1000) - 10
+        /\ vP = Named(vCurve, vPs) /\ vQ = Named(vCurve, vQs)
+        /\ vL = 0 /\ vLQ = Inf
+        /\ vGT = MulTable(vCurve, vP, KMax(vCurve))
+        /\ vRow = RowOf(vCurve, vGT, Inf)
+Step == /\ vL < KMax(vCurve)
+        /\ vL' = vL + 1
+        /\ vLQ' = Add(vCurve, vLQ, vQ)
+        /\ vRow' = IF Keep(vCurve, vFull, vL + 1) THEN RowOf(vCurve, vGT, vLQ') ELSE << >>
+        /\ UNCHANGED << vCurve, vFull, vPs, vQs, vP, vQ, vGT >>
 Next == Step
 Spec == Init /\ [][Next]_vars
 
 (* ---- checked by TLC on every state *)
-Has      == row # << >>
-Closed   == \A k \in 1..Len(row) : OnCurve(c, row[k])
-Corners  == Has => \A k \in {0, 1, l, c.n - 1, KMax(c)} : k <= KMax(c) => row[k + 1] = TwinMul(c, k, P, l, Q)
+Has      == vRow # << >>
+Closed   == \A k \in 1..Len(vRow) : OnCurve(vCurve, vRow[k])
+Corners  == Has => \A k \in {0, 1, vL, vCurve.n - 1, KMax(vCurve)} : k <= KMax(vCurve) => vRow[k + 1] = TwinMul(vCurve, k, vP, vL, vQ)
 Diagonal == Has =>
-            /\ (Q = P => \A k \in 0..KMax(c) : k + l <= KMax(c) => row[k + 1] = gt[k + l + 1])   \* kP + lP = (k+l)P
-            /\ (Q = Neg(c, P) => row[l + 1] = Inf)                                               \* lP - lP
-            /\ (Q = Inf => row = gt)
-            /\ row[1] = lq
-AllAgree == (Heavy /\ Has) => \A k \in 0..KMax(c) : row[k + 1] = TwinMul(c, k, P, l, Q)
-RowSteps == (Heavy /\ Has) => \A k \in 1..(Len(row) - 1) : row[k + 1] = Add(c, row[k], P)
+            /\ (vQ = vP => \A k \in 0..KMax(vCurve) : k + vL <= KMax(vCurve) => vRow[k + 1] = vGT[k + vL + 1])   \* kP + lP = (k+vL)vP
+            /\ (vQ = Neg(vCurve, vP) => vRow[vL + 1] = Inf)                                               \* lP - lP
+            /\ (vQ = Inf => vRow = vGT)
+            /\ vRow[1] = vLQ
+AllAgree == (Heavy /\ Has) => \A k \in 0..KMax(vCurve) : vRow[k + 1] = TwinMul(vCurve, k, vP, vL, vQ)
+RowSteps == (Heavy /\ Has) => \A k \in 1..(Len(vRow) - 1) : vRow[k + 1] = Add(vCurve, vRow[k], vP)
 
-Emit == PrintT(ToJson([gen |-> "twin", curve |-> c, bp |-> (ps = -1), full |-> full, P |-> P, Q |-> Q, l |-> l, row |-> row]))
+Emit == PrintT(ToJson([gen |-> "twin", curve |-> vCurve, bp |-> (vPs = -1), full |-> vFull, P |-> vP, Q |-> vQ, l |-> vL, row |-> vRow]))
 =============================================================================
